@@ -14,7 +14,7 @@ pub fn property() -> Property {
     Property {
         id: "C11",
         level: "exploration",
-        rule: "(1) hosts = ALL strings of 1..3 labels over {a,b,ab,ba,xa} + IPv4/bracketed IPv6 literals + mixed-case spellings; no-proxy lists = ALL lists of <= 2 entries over {'', a, .a, b.a, A, ' a ', a., xa, an IPv4 literal, a bracketed IPv6 literal, ' .b'}; x scheme x {both proxies, http only, disabled flag}: exhaustive, once through ProxySettingsBuilder (entries verbatim) and once through the NO_PROXY environment variable (entries normalised as the statement says). (2) environment: assignments of the 8 variables {http,https,all,no}_proxy x lower/upper case over 7 values each {unset, empty, blank, valid http URL, valid https URL, socks5 URL, garbage} - all 7^8 in thorough, 20 000 sampled in quick; each shard process owns its environment. (3) end-to-end send() through hook H1: the address dialled agrees with the decision. Oracle: reference decision function and environment reader written from the statement, returning the SET of acceptable outcomes (singleton except in documented gray cases). Non-trivial: a proxy is configured for the scheme; distinct = hash(configuration, host).",
+        rule: "(1) hosts = ALL strings of 1..3 labels over {a,b,ab,ba,xa} + IPv4/bracketed IPv6 literals + mixed-case spellings; no-proxy lists = ALL lists of <= 2 entries over {'', a, .a, b.a, A, ' a ', a., xa, an IPv4 literal, a bracketed IPv6 literal, ' .b'}; x scheme x {both proxies, http only, disabled flag}: exhaustive, once through ProxySettingsBuilder (entries verbatim) and once through the NO_PROXY environment variable (entries normalised as the statement says). (2) environment: assignments of the 8 variables {http,https,all,no}_proxy x lower/upper case over 7 values each {unset, empty, blank, valid http URL, valid https URL, socks5 URL, garbage} - all 7^8 in thorough, 20 000 sampled in quick; each shard process owns its environment; while each environment is in force a default-settings request (free function / fresh Session alternating) is sent as well and the address it dials must be an acceptable decision for THAT environment (thousands of different environments per process: stale process-wide state shows). (3) end-to-end send() through hook H1: the address dialled agrees with the decision. Oracle: reference decision function and environment reader written from the statement, returning the SET of acceptable outcomes (singleton except in documented gray cases). Non-trivial: a proxy is configured for the scheme; distinct = hash(configuration, host).",
         assumptions: &["gray (executed, not judged): builder entries with blanks / leading or trailing dots / wildcards, sub-'domains' of IP literals, a blank or invalid lower-case variable next to a valid upper-case one, padded or listed '*' in NO_PROXY"],
         min_nontrivial: |t| t.pick(20_000, 200_000),
         gens,
@@ -245,6 +245,18 @@ fn run_env(ctx: &mut Ctx, rng: &mut Rng, index: u64) {
         vals.push(v);
     }
     let settings = ProxySettings::from_env();
+    // a request with default settings made NOW follows the environment as it is NOW (every case
+    // of a shard runs in the same process with a different environment)
+    let default_dial: Option<Option<String>> = {
+        let world = World::install(|_, _, _| Answer::Script(vec![Step::Data(OK_RESPONSE.to_vec())], WriteFaults::default()));
+        let res = if index % 2 == 0 { attohttpc::get("http://zzz.test/").send() } else { attohttpc::Session::new().get("http://zzz.test/").send() };
+        if res.is_ok() && world.dial_count() == 1 {
+            let d = world.dial(0).req;
+            Some(if d.host == "zzz.test" { None } else { Some(format!("http://{}:{}", d.host, d.port)) })
+        } else {
+            None
+        }
+    };
     clear_env();
     ctx.count("env_cases", 1);
     let cl = |i: usize| proxy::classify(vals[i].as_deref());
@@ -296,6 +308,17 @@ fn run_env(ctx: &mut Ctx, rng: &mut Rng, index: u64) {
             }
             if acceptable.len() > 1 {
                 ctx.count("env_probe_with_several_acceptable_outcomes", 1);
+            }
+            if scheme == "http" && host == "zzz.test" {
+                ctx.count("env_default_request_dials_checked", 1);
+                let norm = |s: &Option<String>| s.as_ref().map(|p| Url::parse(p).map(|u| format!("http://{}:{}", u.host_str().unwrap_or(""), u.port_or_known_default().unwrap_or(0))).unwrap_or_default());
+                match &default_dial {
+                    Some(d) if acceptable.iter().any(|a| norm(a) == *d || (a.is_none() && d.is_none())) => {}
+                    other => {
+                        ctx.violation("env:default-request-ignores-current-environment", format!("a default-settings request to {url} dialled {other:?} (None = failed, Some(None) = direct), acceptable proxies {acceptable:?}; {}", descr()));
+                        break;
+                    }
+                }
             }
         }
     }
